@@ -214,7 +214,21 @@ func writerTable(c *Check, pkgRel, recv, name string) ([]fieldWT, bool) {
 			if hs.param < len(call.Args) {
 				if f, okf := constIntOf(info, call.Args[hs.param]); okf {
 					out = append(out, fieldWT{f, hs.wt})
-				} else {
+					continue
+				}
+				// the field of a table literal ranged over
+				expanded := false
+				if se, isSe := call.Args[hs.param].(*ast.SelectorExpr); isSe {
+					if v, isV := se.X.(*ast.Ident); isV {
+						if tbl, has := rangeOver[v.Name]; has {
+							for _, f := range tables[tbl] {
+								out = append(out, fieldWT{f, hs.wt})
+							}
+							expanded = true
+						}
+					}
+				}
+				if !expanded {
 					ok = false
 				}
 			}
@@ -1215,6 +1229,27 @@ func ruleWriteFits(c *Check, rule string) {
 		at   ssa.Instruction
 		what string
 		up   *bounder
+		// a write inside a helper that was handed the window buf[base:]: the
+		// helper-local end is mapped into the caller's terms and added to base
+		via *struct {
+			callerUp *bounder
+			call     *ssa.Call
+			base     ssa.Value
+			inner    *obl
+		}
+	}
+	var endOf func(o *obl) LinForm
+	endOf = func(o *obl) LinForm {
+		if o.via == nil {
+			return o.up.EvalAt(o.end, o.ext, o.at.Block())
+		}
+		local := endOf(o.via.inner)
+		if local.Top {
+			return local
+		}
+		callee := o.via.call.Common().StaticCallee()
+		mapped := o.via.callerUp.subst(local, callee, o.via.call.Common().Args)
+		return o.via.callerUp.EvalAt(o.via.base, mapped, o.via.call.Block())
 	}
 	// collect gathers the write-end obligations of buffer buf inside fn; a
 	// buffer handed whole to another repository function is followed there.
@@ -1247,7 +1282,7 @@ func ruleWriteFits(c *Check, rule string) {
 					continue
 				}
 				if x.High != nil {
-					*obls = append(*obls, obl{fn, x.High, lfConst(0), x, "slice end", up})
+					*obls = append(*obls, obl{fn: fn, end: x.High, ext: lfConst(0), at: x, what: "slice end", up: up})
 				}
 				if x.Low == nil {
 					continue
@@ -1271,7 +1306,7 @@ func ruleWriteFits(c *Check, rule string) {
 							up.guarded[call] = bufLen // dominated by len(src) <= len(buf) - offset
 							continue
 						}
-						*obls = append(*obls, obl{fn, x.Low, up.lenTerm(cc.Args[1]), call, "copy of " + up.pathOf(cc.Args[1], 0), up})
+						*obls = append(*obls, obl{fn: fn, end: x.Low, ext: up.lenTerm(cc.Args[1]), at: call, what: "copy of " + up.pathOf(cc.Args[1], 0), up: up})
 						continue
 					}
 					callee := cc.StaticCallee()
@@ -1282,7 +1317,7 @@ func ruleWriteFits(c *Check, rule string) {
 					switch {
 					case cn == "csproto.EncodeTag" || cn == "csproto.EncodeVarint":
 						*windows++
-						*obls = append(*obls, obl{fn, x.Low, up.Eval(call), call, cn, up})
+						*obls = append(*obls, obl{fn: fn, end: x.Low, ext: up.Eval(call), at: call, what: cn, up: up})
 					case strings.Contains(cn, "littleEndian).PutUint") || strings.Contains(cn, "bigEndian).PutUint"):
 						*windows++
 						if x.High == nil {
@@ -1292,10 +1327,36 @@ func ruleWriteFits(c *Check, rule string) {
 							} else if strings.HasSuffix(cn, "16") {
 								w = 2
 							}
-							*obls = append(*obls, obl{fn, x.Low, lfConst(w), call, cn, up})
+							*obls = append(*obls, obl{fn: fn, end: x.Low, ext: lfConst(w), at: call, what: cn, up: up})
 						}
 					default:
-						*unknown = append(*unknown, cn)
+						// the window handed to a repository helper: its writes are
+						// relative to the window's start
+						handled := false
+						if callee != nil && callee.Blocks != nil && strings.HasPrefix(fnPkgPath(callee), modPath) && depth < 3 {
+							for ai, a := range cc.Args {
+								if a != ssa.Value(x) || ai >= len(callee.Params) {
+									continue
+								}
+								var sub []obl
+								collect(callee, callee.Params[ai], depth+1, &sub, windows, unknown, ups)
+								for k := range sub {
+									inner := sub[k]
+									o := obl{fn: fn, at: call, what: inner.what + " in " + cn, up: up}
+									o.via = &struct {
+										callerUp *bounder
+										call     *ssa.Call
+										base     ssa.Value
+										inner    *obl
+									}{up, call, x.Low, &inner}
+									*obls = append(*obls, o)
+								}
+								handled = true
+							}
+						}
+						if !handled {
+							*unknown = append(*unknown, cn)
+						}
 					}
 				}
 			}
@@ -1375,7 +1436,7 @@ func ruleWriteFits(c *Check, rule string) {
 				okb := true
 				for _, o := range obls {
 					nObl++
-					end := o.up.EvalAt(o.end, o.ext, o.at.Block())
+					end := endOf(&o)
 					if end.Top {
 						c.Undecided(rule, construct, "cannot bound the end of a write ("+o.what+"): "+end.Why, c.P.InstrPos(o.at))
 						okb = false
